@@ -261,7 +261,7 @@ CLAIMS.update({
              "initialisation for get / iterators (repair of F10) / writers (their program-order premise - every non-atomic flag initialisation is sequenced before the publishing "
              "CAS and reachable nowhere else - is extracted from src/boxcar.rs by the translator: C09_bucket_init_precedes_publication), and get_unchecked through its caller contract and the publisher's acquire of the pointer. The worker's "
              "result list, the per-thread matchers and Drop are ordered by library edges (mutex, spawn/join, Arc). The skeleton is validated by replaying real schedules site by "
-             "site; the caller contract of get_unchecked is evaluated on real Nucleo histories (every index handed to it has reached its publishing store); seven litmus programs (get, tick, restart, bucket allocation, streaming push, batch walking into another thread's bucket) run "
+             "site; the caller contract of get_unchecked is evaluated on real Nucleo histories (every index handed to it has reached its publishing store); eight litmus programs (get, tick, restart, bucket allocation, streaming push, batch walking into another thread's bucket) run "
              "under Miri's race detector (thorough tier, and whenever a certificate breaks: Miri's report is then the replay).",
         note="Trusted: Lean kernel, axioms propext/Classical.choice/Quot.sound, translator (atomic-site extraction), the release/acquire fragment of the memory model as formalised "
              "in Model/MemModel.lean, harness scheduler, Miri as the search engine. rayon, parking_lot and Arc internals are library edges."),
